@@ -186,6 +186,7 @@ class Harness:
                 # read a little, then close with unread data pending
                 try:
                     if partial_read:
+                        csock.settimeout(0.004)     # whatever has arrived by now; never wait for the server
                         received += csock.recv(partial_read)
                 except OSError:
                     pass
